@@ -15,7 +15,8 @@
 #define CTX_ERR_PRE(c) (CTX_REGS_PRE(c) && QPRE(EQ(c)) && COH_REGS(c) && COH_QMA(c))
 #define HAS_ERRCB(c) ((c)->interface != NULL && (c)->interface->error != NULL)
 #define GHOST_FREE gh_free_n, gh_free_last, gh_free_prev
-#define GH_RANGES (gh_srq_n >= 0 && gh_srq_n < 100 && gh_err_n >= 0 && gh_err_n < 100 && gh_free_n >= 0 && gh_free_n < 100)
+/* ghost counters are unsigned and may wrap: no range preconditions */
+#define GH_RANGES 1
 #define TXTMAX 100000
 /* only the error-available bit and MSS of the status byte may change */
 #define STB_ONLY_QMA(c) ((R(c, SCPI_REG_STB) & ~(STB_QMA | STB_SRQ)) == (OLD(R(c, SCPI_REG_STB)) & ~(STB_QMA | STB_SRQ)))
@@ -33,6 +34,8 @@
 #define NO_PUSH(c) (EQ(c)->count == OLD(EQ(c)->count) && EQ(c)->wr == OLD(EQ(c)->wr) && (c)->cmd_error == OLD((c)->cmd_error))
 #define ERRPUSH_FRAME(c) REGS_ALL(c), (c)->cmd_error, GHOST_SRQ, GHOST_ERRCB, GHOST_FREE, gh_dup_len, QUEUE_FRAME(c)
 /* everything SCPI_ErrorPush requires of the context beyond its own allocation */
+/* context invariants every function that may queue an error hands back */
+#define CTX_ERR_POST(c) (QINV(EQ(c)) && QSAME(EQ(c)) && EQ(c)->rd == OLD(EQ(c)->rd) && COH_REGS(c) && COH_QMA(c))
 #define CTX_ERRQ_OK(c) (QPRE(EQ(c)) && COH_REGS(c) && COH_QMA(c) && GH_RANGES)
 
 void SCPI_ErrorInit(scpi_t * context, scpi_error_t * data, int16_t size)
@@ -53,7 +56,6 @@ __CPROVER_ensures(RET == EQ(context)->count)
 static scpi_bool_t SCPI_ErrorAddInternal(scpi_t * context, int16_t err, char * info, size_t info_len)
 __CPROVER_requires(__CPROVER_is_fresh(context, sizeof(*context)) && QPRE(EQ(context)))
 __CPROVER_requires(info == NULL || info_len == 0 || (info_len <= TXTMAX && __CPROVER_is_fresh(info, info_len)))
-__CPROVER_requires(gh_free_n >= 0 && gh_free_n < 1000)
 __CPROVER_assigns(GHOST_FREE, gh_dup_len, QUEUE_FRAME(context))
 __CPROVER_ensures(QINV(EQ(context)) && QSAME(EQ(context)) && EQ(context)->rd == OLD(EQ(context)->rd))
 __CPROVER_ensures(RET == (OLD(EQ(context)->count) < EQ(context)->size))
